@@ -112,6 +112,10 @@ def descriptors() -> dict[str, NodeV]:
         "Create", "stmt", kind=Const("TABLE"),
         this=node("Schema", this=table("T"), expressions=Lst([coldef("A", "BIGINT")])),
         properties=node("Properties", expressions=Lst([node("TransientProperty")])))
+    d["CREATE TEMPORARY TABLE AS"] = node(
+        "Create", "stmt", kind=Const("TABLE"), replace=Const(True), this=table("T"),
+        expression=node("Select", expressions=Lst([node("Star")]), **{"from": node("From", this=table("U"))}),
+        properties=node("Properties", expressions=Lst([node("TemporaryProperty")])))
     d["CREATE TABLE AS"] = node("Create", "stmt", kind=Const("TABLE"), this=table("T"),
                                 expression=node("Select", expressions=Lst([node("Star")]), **{"from": node("From", this=table("U"))}))
     d["CREATE TABLE CLONE"] = node("Create", "stmt", kind=Const("TABLE"), this=table("T2"),
